@@ -107,7 +107,18 @@ def _sym_exp(a):
     a = C(a)
     if a.is_zero():
         return C(1)
+    if a.im.is_zero() and not a.re.d and len(a.re.n.t) > 1:
+        # exp of a sum is the product of the exps of its terms (sound rewrite; makes exp(a + b) and exp(a) exp(b) congruent)
+        from .terms import Poly, Rat
+        out = C(1)
+        for m, c in sorted(a.re.n.t.items()):
+            out = out * (uf_apply('exp', Sym(Rat(Poly({m: c})))) if m else _exp_const(c))
+        return out
     return uf_apply('exp', a)
+
+
+def _exp_const(c):
+    return uf_apply('exp', C(c))
 
 
 def _sym_log(a):
